@@ -12,6 +12,7 @@ import (
 	"os"
 	"path/filepath"
 	"sort"
+	"strconv"
 	"strings"
 	"syscall"
 	"time"
@@ -258,23 +259,33 @@ func zzLastJSON() interface{} {
 	return last
 }
 
-type zzZeroReader struct{}
+// zzScriptedRand replays the scenario's random draws: the n-th read (ids are 4 bytes, uuids 16)
+// yields zero bytes - which encode to the id "AAAAAA" - exactly when the scenario's n-th draw is
+// that id; every other draw comes from the real source.
+type zzScriptedRand struct {
+	n    int
+	real io.Reader
+}
 
-func (zzZeroReader) Read(p []byte) (int, error) {
-	for i := range p {
-		p[i] = 0
+func (r *zzScriptedRand) Read(p []byte) (int, error) {
+	r.n++
+	if len(p) == 4 && zzLoad().Values["shortid!"+strconv.Itoa(r.n)] == "AAAAAA" {
+		for i := range p {
+			p[i] = 0
+		}
+		return len(p), nil
 	}
-	return len(p), nil
+	return r.real.Read(p)
 }
 
 var zzSavedRand io.Reader
 
-// zzPinRand makes crypto/rand deliver zero bytes: shortID() == "AAAAAA".
+// zzPinRand installs the scripted random source (see zzScriptedRand).
 func zzPinRand() {
 	if zzSavedRand == nil {
 		zzSavedRand = rand.Reader
 	}
-	rand.Reader = zzZeroReader{}
+	rand.Reader = &zzScriptedRand{real: zzSavedRand}
 }
 
 // zzLockStats cannot be observed natively; obligations on it are structural (flag constants).
